@@ -41,4 +41,6 @@ func VerifC17Yaml() {
 	vReach("before-processed")
 	out, err := NewTestRenumberer().processYaml("920100", []byte(c17Lines(k, long)))
 	vAssert(err != nil || countLines(string(out)) == k, "C17 processYaml: lines after a line longer than 64 KiB are silently dropped")
+	// none of the lines is a test_id/test_title line and the input ends with exactly one newline: the output is the input
+	vAssert(err != nil || string(out) == c17Lines(k, long), "C17 processYaml content: a file with a line longer than 64 KiB is not carried through unchanged")
 }
